@@ -99,7 +99,8 @@ def install(mods):
             ld = leaf_digest(exprs)
             res = orig_check_exprs(exprs)
             txt = read_file(tmpfiles.get_tmp_filename())
-            td = text_digest(txt.decode('utf-8', 'replace')) if txt else None
+            td = text_digest(txt.decode('utf-8', 'replace')) \
+                if txt is not None else None
             emit('check', ld=ld, td=td, verdict=bool(res),
                  dur=time.monotonic() - t0)
             return res
